@@ -1,6 +1,69 @@
 package props
 
-import "verif/internal/ast"
+import (
+	"encoding/json"
+
+	"verif/internal/ast"
+	"verif/internal/wire"
+)
 
 var astStyle = ast.Style{}
 var astStyleOneLine = ast.Style{OneLine: true}
+
+// wireOf converts a resolved reference type into the worker's dump format.
+func wireOf(t *ast.Ty) *wire.Ty {
+	if t == nil {
+		return nil
+	}
+	switch t.K {
+	case ast.KName:
+		return &wire.Ty{K: "name", M: t.M.String(), Name: t.Name}
+	case ast.KOne:
+		return &wire.Ty{K: "one", M: t.M.String()}
+	case ast.KTensor:
+		return &wire.Ty{K: "send", M: t.M.String(), L: wireOf(t.L), R: wireOf(t.R)}
+	case ast.KLolli:
+		return &wire.Ty{K: "recv", M: t.M.String(), L: wireOf(t.L), R: wireOf(t.R)}
+	case ast.KPlus, ast.KWith:
+		r := &wire.Ty{K: "plus", M: t.M.String()}
+		if t.K == ast.KWith {
+			r.K = "with"
+		}
+		for _, b := range t.Brs {
+			r.Brs = append(r.Brs, wire.Br{L: b.L, T: wireOf(b.T)})
+		}
+		return r
+	case ast.KUp, ast.KDown:
+		k := "up"
+		if t.K == ast.KDown {
+			k = "down"
+		}
+		return &wire.Ty{K: k, M: t.M.String(), From: t.L.M.String(), To: t.M.String(), C: wireOf(t.L)}
+	}
+	return nil
+}
+
+func tyJSON(t *wire.Ty) string {
+	b, _ := json.Marshal(t)
+	return string(b)
+}
+
+// unsetNodes lists nodes of a dumped type whose mode is not one of the four modes.
+func badModes(t *wire.Ty, out *[]string) {
+	if t == nil {
+		return
+	}
+	ok := func(m string) bool { return m == "rep" || m == "mul" || m == "aff" || m == "lin" }
+	if !ok(t.M) {
+		*out = append(*out, t.K+":"+t.M)
+	}
+	if (t.K == "up" || t.K == "down") && (!ok(t.From) || !ok(t.To)) {
+		*out = append(*out, t.K+":"+t.From+"->"+t.To)
+	}
+	badModes(t.L, out)
+	badModes(t.R, out)
+	badModes(t.C, out)
+	for _, b := range t.Brs {
+		badModes(b.T, out)
+	}
+}
